@@ -523,11 +523,19 @@ bool plan_valid(const Plan &p, std::string &why)
                                         return bad("text action in write/run script");
                                 if (s.text.find('\0') != std::string::npos)
                                         return bad("NUL in script text");
+                                if ((s.act == A_SETTEXT || s.act == A_APPEND) && p.prop != "C03R" &&
+                                    (s.text.size() < 2 || s.text[0] != '~' || (s.text[1] == 'e') != (c.ev != 0)))
+                                        return bad("handler text must carry its producer marker (~e / ~c): units have to be attributable");
                         }
         }
         for (int n : per_group)
                 if (n < 1)
                         return bad("empty group");
+        if (p.prop != "C03R")
+                for (auto &a : p.cmds)
+                        for (auto &b : p.cmds)
+                                if (a.ev && !b.ev && a.name == b.name)
+                                        return bad("event source with the same name as a line-addressable command (units would not be attributable)");
         // an event TEST response embeds a newline whose style (LF / CRLF) depends on what the command
         // side is doing at that moment; keep away from the one capacity at which that decides the fit
         if (p.prop != "C03R")
